@@ -8,6 +8,7 @@ import (
 	"encoding/hex"
 	"fmt"
 	"os"
+	"runtime/debug"
 	"strings"
 )
 
@@ -37,6 +38,14 @@ func safe(h handler, toks []string) (out string) {
 	defer func() {
 		if r := recover(); r != nil {
 			out = fmt.Sprintf("PANIC:%v", r)
+			// where in goyang: the first frames of the stack that lie in the library
+			n := 0
+			for _, l := range strings.Split(string(debug.Stack()), "\n") {
+				if i := strings.Index(l, "/pkg/yang/"); i >= 0 && n < 4 {
+					out += " @" + strings.Fields(l[i+len("/pkg/yang/"):])[0]
+					n++
+				}
+			}
 			out = strings.ReplaceAll(out, "\n", " ")
 		}
 	}()
